@@ -386,7 +386,7 @@ class CIMDateTime(_CIMComparisonMixin, CIMType):
     _timestamp_pattern = re.compile(
         r'^([\d\*]{4})([\d\*]{2})([\d\*]{2})'
         r'([\d\*]{2})([\d\*]{2})([\d\*]{2})\.([\d\*]{6})'
-        r'([+|-])(\d{3})')
+        r'([+-])(\d{3})')
 
     _interval_pattern = re.compile(
         r'^([\d\*]{8})([\d\*]{2})([\d\*]{2})([\d\*]{2})\.([\d\*]{6})'
